@@ -417,6 +417,12 @@ macro "obj_simp" : tactic =>
 macro "obj_simp" "[" ls:Lean.Parser.Tactic.simpLemma,* "]" : tactic =>
   `(tactic| simp [bind, Except.bind, pure, Except.pure, throw, throwThe, MonadExceptOf.throw, $ls,*])
 
+/-- wrapper of every `Cxx_gen_*` proof: when the regenerated definition is no longer the model's function the build
+error names the obligation (the harness shows the first line of each error) -/
+syntax "gen_obligation " str " by " tacticSeq : tactic
+macro_rules
+  | `(tactic| gen_obligation $s by $t) => `(tactic| first | (($t); done) | fail $s)
+
 /-! ### facts used by every encoding -/
 
 theorem isInfixB_singleton (c : Char) (l : List Char) : isInfixB [c] l = l.contains c := by
